@@ -41,6 +41,8 @@ func checkC11(p *Prog, r *Report) {
 	ruleC11Name(p, a, r)
 	ruleC11Only(p, a, r)
 	ruleC11NoCache(p, a, r)
+	ruleC11Rooted(p, a, r)
+	ruleC11StaticName(p, a, r)
 }
 
 func implementsLoader(p *Prog, a *Anchors, f *ssa.Function) bool {
@@ -409,6 +411,14 @@ func ruleC11Name(p *Prog, a *Anchors, r *Report) {
 			if len(args) < 3 {
 				return
 			}
+			// resolveTemplate(nil, resolveFilename(<referring template>, name)): the two-step form every other tag
+			// gets through FromFile — the name is already relative to the referrer, the loaders see it as given
+			if callee == resolveTpl && isNilConst(args[1]) {
+				if rc, isCall := args[2].(*ssa.Call); isCall && rc.Common().StaticCallee() == resolve && isReferringSet(rc.Common().Args[0]) && isReferringTemplate(rc.Common().Args[1]) && isReferringSet(args[0]) {
+					r.OK(key, pos, "resolveTemplate(nil, resolveFilename(<referring template>, name))")
+					return
+				}
+			}
 			if !isReferringSet(args[0]) {
 				r.Bad(key, pos, "name resolution uses set %s, not the referring template's", p.VN(args[0]))
 			} else if !isReferringTemplate(args[1]) {
@@ -566,6 +576,21 @@ func ruleC11Only(p *Prog, a *Anchors, r *Report) {
 					}
 					return false
 				})
+				// … and it is the absence of the file, not a failure to read one that is there: FromFile reports both with
+				// the same Sender and Filename, so the error's cause (OrigError) has to be looked at
+				cause := Guarded(ret, func(cnd ssa.Value, pol bool) bool {
+					if b, ok := cnd.(*ssa.BinOp); ok && b.Op == token.EQL && pol {
+						return loadsFieldAny(stripConv(b.X), "Error", "OrigError") || loadsFieldAny(stripConv(b.Y), "Error", "OrigError")
+					}
+					if c, ok := cnd.(*ssa.Call); ok && pol && c.Common().StaticCallee() != nil && p.extName(c.Common().StaticCallee()) == "errors.Is" {
+						return true
+					}
+					return false
+				})
+				if ifEx && sender && thisFile && !cause {
+					r.Bad(key, p.InstrPos(ret), "if_exists swallows every load error of the named file, also a failing read of a template that exists (FromFile gives both the same Sender and Filename): only the not-found cause may be ignored")
+					continue
+				}
 				if ifEx && sender && thisFile {
 					r.OK(key, p.InstrPos(ret), "a failed load is ignored only when if_exists is set and the error is the absence of the very file asked for (Sender == \"fromfile\", Filename == requested name)")
 				} else {
@@ -653,5 +678,133 @@ func ruleC11NoCache(p *Prog, a *Anchors, r *Report) {
 		}
 		sort.Strings(names)
 		r.OK("no-cache", "-", "cache readers %v are called only by the set itself and the exported API", names)
+	}
+}
+
+// ruleC11Rooted: sibling cross-check of the loaders. An Abs implementation that joins the name with the directory of
+// the referring template does so only for names that are not rooted; a rooted name ("/r.html") is resolved from the
+// loader's root whatever template refers to it.
+func ruleC11Rooted(p *Prog, a *Anchors, r *Report) {
+	r.Begin("R-C11-ROOTED", "every loader's Abs resolves a name relative to the referring template only after testing that the name is not rooted", 2)
+	n := 0
+	for _, f := range p.Funcs {
+		if !p.InPkg(f) || f.Blocks == nil || f.Name() != "Abs" || !implementsLoader(p, a, f) || len(f.Params) < 3 {
+			continue
+		}
+		base, name := f.Params[1], f.Params[2]
+		for _, b := range f.Blocks {
+			for _, in := range b.Instrs {
+				c, ok := in.(*ssa.Call)
+				if !ok || c.Common().StaticCallee() == nil {
+					continue
+				}
+				nm := p.extName(c.Common().StaticCallee())
+				if nm != "path/filepath.Join" && nm != "path.Join" {
+					continue
+				}
+				// joins Dir(base) with name?
+				usesBase, usesName := false, false
+				for _, v := range varargValues(c.Common().Args[0]) {
+					if v == ssa.Value(name) {
+						usesName = true
+					}
+					if dc, isCall := v.(*ssa.Call); isCall && len(dc.Common().Args) == 1 {
+						if dc.Common().Args[0] == ssa.Value(base) {
+							usesBase = true
+						}
+						if ph, isPhi := dc.Common().Args[0].(*ssa.Phi); isPhi {
+							for _, e := range ph.Edges {
+								if e == ssa.Value(base) {
+									usesBase = true
+								}
+							}
+						}
+					}
+				}
+				if !usesBase || !usesName {
+					continue
+				}
+				n++
+				key := p.FuncName(f) + ":relative-join"
+				g := Guarded(in, func(cnd ssa.Value, pol bool) bool {
+					cc, ok := cnd.(*ssa.Call)
+					if !ok || pol || cc.Common().StaticCallee() == nil {
+						return false
+					}
+					q := p.extName(cc.Common().StaticCallee())
+					if q == "path/filepath.IsAbs" || q == "path.IsAbs" {
+						return cc.Common().Args[0] == ssa.Value(name)
+					}
+					if q == "strings.HasPrefix" {
+						pre, isC := constString(cc.Common().Args[1])
+						return cc.Common().Args[0] == ssa.Value(name) && isC && pre == "/"
+					}
+					return false
+				})
+				if g {
+					r.OK(key, p.InstrPos(in), "joined with the referring template's directory only when the name is not rooted")
+				} else {
+					r.Bad(key, p.InstrPos(in), "%s joins every name with the directory of the referring template, also a rooted one: {%% include \"/r.html\" %%} in a/x.html is looked up as a/r.html, while the other loaders resolve rooted names from the root", p.FuncName(f))
+				}
+			}
+		}
+	}
+	if n == 0 {
+		r.Bad("none", "-", "no loader joins names with the referring template's directory: the rule no longer sees the code it was written for")
+	}
+}
+
+// ruleC11StaticName: the include tag compiles its target at compile time only when the name is a literal — the whole
+// name expression, not merely its first token. The decision "static" therefore looks beyond the string token.
+func ruleC11StaticName(p *Prog, a *Anchors, r *Report) {
+	r.Begin("R-C11-STATICNAME", "include treats a name as static (fetched at compile time) only after looking at what follows the string literal: a computed name that starts with a literal is not fetched as that literal", 1)
+	f := a.TagParsers["include"]
+	fromFile := p.Method("TemplateSet", "FromFile")
+	if f == nil || fromFile == nil {
+		r.Unk("anchor", "-", "anchor unresolved: include parser / FromFile")
+		return
+	}
+	for _, c := range callsTo(f, fromFile) {
+		in := c.(ssa.Instruction)
+		key := p.FuncName(f) + ":static-decision"
+		// on every path to the compile-time fetch a test of the token AFTER the literal (or of the remaining count) was made
+		looked := Guarded(in, func(cnd ssa.Value, pol bool) bool {
+			found := false
+			var walk func(v ssa.Value, d int)
+			walk = func(v ssa.Value, d int) {
+				if d > 5 || found {
+					return
+				}
+				switch x := v.(type) {
+				case *ssa.BinOp:
+					walk(x.X, d+1)
+					walk(x.Y, d+1)
+				case *ssa.Phi:
+					for _, e := range x.Edges {
+						walk(e, d+1)
+					}
+				case *ssa.Call:
+					if cal := x.Common().StaticCallee(); cal != nil {
+						switch cal.Name() {
+						case "Remaining", "Count":
+							found = true
+						case "PeekTypeN", "PeekN", "Get":
+							if len(x.Common().Args) > 1 {
+								if k, isC := constInt(x.Common().Args[1]); isC && k >= 1 {
+									found = true
+								}
+							}
+						}
+					}
+				}
+			}
+			walk(cnd, 0)
+			return found
+		})
+		if looked {
+			r.OK(key, p.InstrPos(in), "the compile-time fetch happens only after the parser has looked at what follows the literal")
+		} else {
+			r.Bad(key, p.InstrPos(in), "the include is taken for a static one on the strength of its first token alone: {%% include \"d/\" + n %%} fetches and compiles \"d/\" at compile time, a name the template never references, and then fails")
+		}
 	}
 }
